@@ -62,6 +62,30 @@ pub fn check_unary(rope: &Rope<'_>, s: &str) -> Result<(), String> {
   ck!("to_bytes", rope.to_bytes().to_vec(), s.as_bytes().to_vec(), s);
   ck!("char_indices", rope.char_indices().collect::<Vec<_>>(), s.char_indices().collect::<Vec<_>>(), s);
   ck!("lines", rope.lines().map(|l| l.to_string()).collect::<Vec<_>>(), model_lines(s), s);
+  // the iterators through the std adaptors (which may be specialised): count / last / nth after
+  // 0, 1, 2 steps
+  {
+    let ml = model_lines(s);
+    let mc: Vec<(usize, char)> = s.char_indices().collect();
+    for k in 0..3usize {
+      let mut it = rope.lines();
+      let mut ci = rope.char_indices();
+      for _ in 0..k {
+        it.next();
+        ci.next();
+      }
+      ck!(format!("lines() advanced {k} times, then count()"), it.count(), ml.len().saturating_sub(k), s);
+      ck!(format!("char_indices() advanced {k} times, then count()"), ci.count(), mc.len().saturating_sub(k), s);
+      ck!(format!("lines().skip({k}).count()"), rope.lines().skip(k).count(), ml.len().saturating_sub(k), s);
+      ck!(format!("lines().nth({k})"), rope.lines().nth(k).map(|l| l.to_string()), ml.get(k).cloned(), s);
+      ck!(format!("char_indices().nth({k})"), rope.char_indices().nth(k), mc.get(k).copied(), s);
+    }
+    ck!("lines().last()", rope.lines().last().map(|l| l.to_string()), ml.last().cloned(), s);
+    ck!("char_indices().last()", rope.char_indices().last(), mc.last().copied(), s);
+    let mut it = rope.lines();
+    it.next();
+    ck!("lines() advanced once, then collected", it.map(|l| l.to_string()).collect::<Vec<_>>(), ml.iter().skip(1).cloned().collect::<Vec<_>>(), s);
+  }
   for i in (0..s.len() + 2).filter(|i| s.len() <= 48 || *i < 4 || *i + 4 > s.len() || i % 61 == 0) {
     ck!(format!("get_byte({i})"), rope.get_byte(i), s.as_bytes().get(i).copied(), s);
     if i < s.len() {
@@ -102,7 +126,21 @@ pub fn check_unary(rope: &Rope<'_>, s: &str) -> Result<(), String> {
   for &a in &positions {
     for &e in &positions {
       let want = if a <= e && e <= s.len() && s.is_char_boundary(a) && s.is_char_boundary(e) { Some(s[a..e].to_string()) } else { None };
-      ck!(format!("get_byte_slice({a}..{e})"), rope.get_byte_slice(a..e).map(|x| x.to_string()), want, s);
+      let got = rope.get_byte_slice(a..e);
+      ck!(format!("get_byte_slice({a}..{e})"), got.as_ref().map(|x| x.to_string()), want.clone(), s);
+      if let (Some(g), Some(w)) = (&got, &want) {
+        // the slice is a rope in its own right
+        ck!(format!("get_byte_slice({a}..{e}).len()"), g.len(), w.len(), s);
+        let h = floor_cb(w, w.len() / 2);
+        ck!(format!("get_byte_slice({a}..{e}) sliced again at {h}.."), g.get_byte_slice(h..).map(|x| x.to_string()), Some(w[h..].to_string()), s);
+        // the unchecked twin, inside its documented precondition (in bounds, ordered, on char boundaries)
+        let u = unsafe { rope.byte_slice_unchecked(a..e) };
+        ck!(format!("byte_slice_unchecked({a}..{e})"), u.to_string(), w.clone(), s);
+        ck!(format!("byte_slice_unchecked({a}..{e}).len()"), u.len(), w.len(), s);
+        ck!(format!("byte_slice_unchecked({a}..{e}) sliced again at {h}.."), u.get_byte_slice(h..).map(|x| x.to_string()), Some(w[h..].to_string()), s);
+        ck!(format!("byte_slice_unchecked({a}..{e}) == its string"), u == w.as_str(), true, s);
+        ck!(format!("byte_slice_unchecked({a}..{e}).lines()"), u.lines().map(|l| l.to_string()).collect::<Vec<_>>(), model_lines(w), s);
+      }
     }
   }
   // the eight RangeBounds shapes on a few positions
